@@ -64,6 +64,21 @@ Fixpoint upd_nat (l : list Z) (n : nat) (v : Z) : list Z :=
   end.
 Definition go_upd (l : list Z) (j v : Z) : list Z := upd_nat l (Z.to_nat j) v.
 
+(* make([]T, n): n zero elements.  encoding/binary.BigEndian on a []byte b at offset k (`b[k:]`): Uint16/32 read, PutUint16/32
+   store byte(v>>8*i) = v / 2^(8*i) mod 256 (v is an unsigned value, so the shift is the division). The bounds test
+   0 <= k /\ k + width <= len(b) is emitted by the translator in front of the statement. *)
+Definition go_make (n : Z) : list Z := repeat 0 (Z.to_nat n).
+Definition go_be16 (l : list Z) (k : Z) : Z := go_nth l k * 256 + go_nth l (k + 1).
+Definition go_be32 (l : list Z) (k : Z) : Z :=
+  ((go_nth l k * 256 + go_nth l (k + 1)) * 256 + go_nth l (k + 2)) * 256 + go_nth l (k + 3).
+Definition go_be64 (l : list Z) (k : Z) : Z := go_be32 l k * 4294967296 + go_be32 l (k + 4).
+Definition go_put_be16 (l : list Z) (k v : Z) : list Z :=
+  go_upd (go_upd l k (v / 256 mod 256)) (k + 1) (v mod 256).
+Definition go_put_be32 (l : list Z) (k v : Z) : list Z :=
+  go_upd (go_upd (go_upd (go_upd l k (v / 16777216 mod 256)) (k + 1) (v / 65536 mod 256)) (k + 2) (v / 256 mod 256)) (k + 3) (v mod 256).
+Definition go_put_be64 (l : list Z) (k v : Z) : list Z :=
+  go_put_be32 (go_put_be32 l k (v / 4294967296 mod 4294967296)) (k + 4) (v mod 4294967296).
+
 Fixpoint while {S : Type} (fuel : nat) (c : S -> bool) (b : S -> S) (s : S) : option S :=
   match fuel with
   | O => None
